@@ -41,7 +41,8 @@ pub enum Pattern {
     ConnectStall,
     /// the CONNECT trickles in, a few bytes every 0.6 s (each gap below the connect timeout of 1 s, the whole far above it)
     ConnectTrickle,
-    /// client role, keep-alive k, idle: PINGREQ expected on the wire
+    /// client role, keep-alive k, idle: PINGREQ expected on the wire (source Override(t) on a v5 client: k is the Server Keep
+    /// Alive of the CONNACK, the client itself asked for t, 10 standing for 0)
     ClientIdle(u16),
     /// the same with the send window (1) taken by a QoS 1 publish the peer does not acknowledge
     ClientIdleWindowFull(u16),
@@ -135,6 +136,12 @@ async fn run_conn(c: Case) -> Verdict {
     if let Pattern::ClientIdle(k) | Pattern::ClientIdleWindowFull(k) | Pattern::ClientStreamThenIdle(k) = c.pattern {
         cfg.v3.connect.keep_alive = k;
         cfg.v5.connect.keep_alive = k;
+        if let Source::Override(t) = c.source {
+            // v5 client: the server imposes its own keep-alive in CONNACK (Server Keep Alive = k); the client asked for `t`,
+            // where 0 means it asked for none
+            cfg.v5.connect.keep_alive = if t == 10 { 0 } else { t };
+            cfg.v5.connack.server_keep_alive = Some(k);
+        }
         if matches!(c.pattern, Pattern::ClientIdleWindowFull(_)) {
             cfg.v3.max_send = 1;
             cfg.v5.connack.receive_max = Some(1);
@@ -550,6 +557,10 @@ pub fn all_cases(thorough: bool) -> Vec<Case> {
             out.push(Case { role, source: Source::Client(k), pattern: Pattern::ClientIdleWindowFull(k) });
             out.push(Case { role, source: Source::Client(k), pattern: Pattern::ClientStreamThenIdle(k) });
         }
+    }
+    // v5 client under a Server Keep Alive of 1 s: it asked for none (Override(10) stands for keep-alive 0) or for 5 s
+    for t in [10u16, 5] {
+        out.push(Case { role: Role::V5Client, source: Source::Override(t), pattern: Pattern::ClientIdle(1) });
     }
     out
 }
